@@ -21,8 +21,8 @@ def run_mutant(relfile, old, new, pids, count=1, tier="quick", repo="/repo", ver
             env = dict(os.environ, SOPHT_REPO=tmp, PYTHONPATH=os.path.dirname(os.path.abspath(__file__)))
             r = subprocess.run([sys.executable, "-m", "sa.check", pid, "--tier", tier, "--repo", tmp, "--no-evidence"],
                                capture_output=True, text=True, env=env, cwd=os.path.dirname(os.path.abspath(__file__)))
-            lines = [l for l in r.stdout.splitlines() if l.startswith(("VIOLATION", "  rule=", "ANALYSIS-ERROR", "KNOWN"))]
-            res[pid] = (r.returncode, lines[:6], r.stdout[-1500:] if r.returncode == 2 else "")
+            lines = [l for l in r.stdout.splitlines() if l.startswith(("VIOLATION", "  ", "ANALYSIS-ERROR", "KNOWN")) and not l.startswith("  key=") and not l.startswith("  File") and not l.startswith("    ")]
+            res[pid] = (r.returncode, lines[:9], r.stdout[-1500:] if r.returncode == 2 else "")
         return res
     finally:
         shutil.rmtree(tmp, ignore_errors=True)
